@@ -125,6 +125,11 @@ fn run_clone(ctx: &mut Ctx) {
     if sabotage != "none" {
         simkit::count("failing-clone-scenario");
     }
+    // the output named as a seed of itself (same path or another spelling of it): still only
+    // the output may be written, nothing created next to it
+    if f.prior.is_some() && !f.blockdev && gen::chance(1, 8) {
+        extra.alias_output_as_seed = Some(*gen::t(|t| t.pick(&["out.bin", "./out.bin", "out.bin"])));
+    }
     let ob = clonefam::execute_with(&f, presented.as_deref(), &extra);
     let outcome = ob.outcome.clone().unwrap();
     if matches!(outcome, crate::cli::Outcome::Panic(_) | crate::cli::Outcome::StepBudget | crate::cli::Outcome::Deadlock) {
